@@ -108,7 +108,13 @@ func formatArrayTypeName(v string) string {
 
 //ExtractValue info
 func ExtractValue(v reflect.Value, extractor ValueExtractor) {
-	v = RawValue(v)
+	for v.Kind() == reflect.Ptr {
+		if v.IsNil() {
+			// describe the type behind a nil pointer through a fresh value, as for empty containers
+			v = reflect.New(v.Type().Elem())
+		}
+		v = v.Elem()
+	}
 
 	if !extractor(v) {
 		return
